@@ -8,6 +8,8 @@
         kind 2  PrecisionOp::evalDirect (matrix-free) / PrecisionOpCs::getQ().v / model Lambda.P(S).Lambda.v, S and Lambda harvested exactly
   property on impl (independent of the model): rows aligned with the samples, empty outside, weights >= 0 summing to one and reproducing
         affine functions; Q symmetric and positive definite; both operator forms apply identically; diagonal extraction;
+        kind 0 alone  a selection masking every mesh: no sample may get weights (key turbo-proj:selection-masks-every-mesh)
+        kind 4  MeshEStandard::resetFromTurbo on a fresh object, then the same samples projected on both meshings get the same rows
         kind 3  conditional solves: residuals of the Cholesky and of the conjugate-gradient solutions computed here from the harvested
                 operators, kriging through the API in both modes equals the solution of (Q + A'A/s2) x = A'z/s2 projected on the targets.
 """
@@ -306,6 +308,8 @@ def run(ctx):
     hv = Harvest()
     check_turbo(ctx, exe, runner, hv, viol)
     check_standard(ctx, exe, runner, viol)
+    check_degenerate_selection(ctx, exe, viol)
+    check_from_turbo(ctx, exe, hv, viol)
     check_operators(ctx, exe, runner, hv, viol)
     check_solvers(ctx, exe, hv, viol)
 
@@ -320,6 +324,8 @@ def run(ctx):
         'coq/C16/Model.v grid index / coordinate maps (imported; tied to Grid.cpp by the C16 check)',
         'python exact rational arithmetic (fractions) for the independent spec of the projection rows and the LDL\' pivots of the harvested Q']
     ctx.assumptions = [
+        'corpus/C15.sx keeps the witnesses of the repaired defects (row counter of MeshETurbo::resetProjMatrix, forced dimensions of '
+        'MeshEStandard::resetProjMatrix); PrecisionOp::addToDest on a non-zero destination and krigingSPDENew in both modes are exercised by every operator / solver case',
         'S (ShiftOpCs) and Lambda are harvested from the library as exact doubles: the finite-element assembly of S and its positivity are not proved',
         'Chebyshev approximations (powers -1, -1/2, log of the operator), Eigen sparse Cholesky and conjugate gradient are external: '
         'the clauses "Cholesky and CG agree" and "every solve satisfies its system" are runtime evidence (residuals recomputed from the harvested operators)',
@@ -548,6 +554,70 @@ def shrink_standard(ctx, exe, c, key):
             if symptom(t): cur = t; changed = True; break
     return c[:4] + [cur]
 
+# ----------------------------------------------------------------------------- selections that leave no active mesh
+def check_degenerate_selection(ctx, exe, viol):
+    """a selection masking every mesh: the meshing has no apex, every sample must get an empty row (one row per sample).
+    Each case runs in its own process: the pinned code aborts (Indirection takes its empty map for 'no indirection')"""
+    rng = ctx.rng
+    n = 3 if ctx.quick() else 12
+    for k in range(n):
+        ts = gen_turbo(rng, ndim=rng.choice([1, 2, 3]), maxn=4, rot='none', allow_sel=False)
+        ntot = math.prod(ts['nx'])
+        if k % 2 == 0: ts['sel'] = [0] * ntot
+        else:     # one node in two along the first axis: every cell has a masked corner
+            ts['sel'] = [(i % ts['nx'][0]) % 2 for i in range(ntot)]
+        M = ident(ts['n'])
+        pts = [point_of_u(ts, M, gen_point_u(rng, ts, 'inside')) for _ in range(3)]
+        c = [0] + [list(ts['nx']), [dy(x) for x in ts['dx']], [dy(x) for x in ts['x0']], [], 1 if ts['pol'] else 0, list(ts['sel'])] + [[[dy(x) for x in p] for p in pts]]
+        cf = write_cases(ctx, 'allmasked%d' % k, [c])
+        rc, res = run_impl(ctx, exe, cf, timeout=120)
+        ctx.count(sx_str(c), True); ctx.dist('turbo_all_meshes_masked')
+        if not res or res[0][0] == -997:
+            viol('turbo-proj:selection-masks-every-mesh', 'a selection that masks every mesh: building the projection matrix aborts (harness exit %s) instead of '
+                 'giving %d empty rows' % (rc, len(pts)), {'case': sx_str(c), 'how': 'harness/C15.cpp kind 0, alone in its case file'})
+            continue
+        nr, nc, rows, apex = res[0]
+        # the meshing has no apex: a (samples x 0) matrix cannot be stored, so only the absence of weights is required
+        if any(r for r in rows):
+            viol('turbo-proj:selection-masks-every-mesh', 'a selection that masks every mesh (no apex left): samples %s get weights on grid nodes '
+                 'that are not apices of the meshing (matrix %dx%d, getNApices() = 0)' % ([i for i, r in enumerate(rows) if r], nr, nc), {'case': sx_str(c)})
+
+# ----------------------------------------------------------------------------- standard meshing built from a turbo meshing
+def check_from_turbo(ctx, exe, hv, viol):
+    """MeshEStandard::resetFromTurbo: the same samples projected on both meshings get the same rows (strictly inside a simplex)"""
+    rng = ctx.rng
+    ncase = 20 if ctx.quick() else 200
+    specs = [gen_turbo(rng, maxn=4) for _ in range(ncase)]
+    for ts in specs:
+        if ts['ang']: hv.ask(ts['n'], ts['ang'])
+    hv.run(ctx, exe)
+    cases = []
+    for ts in specs:
+        M = turbo_M(ts, hv)
+        pts = [point_of_u(ts, M, gen_point_u(rng, ts, rng.choice(['inside', 'inside', 'edge']))) for _ in range(rng.randint(3, 8))]
+        cases.append([4] + turbo_sx(ts, hv) + [[[dy(x) for x in p] for p in pts]])
+        ctx.dist('from_turbo_%dd' % ts['n'])
+    cf = write_cases(ctx, 'fromturbo', cases)
+    rc, impl = run_impl(ctx, exe, cf)
+    for i, c in enumerate(cases):
+        ii = impl[i] if i < len(impl) else None
+        rep = {'case': sx_str(c), 'how': 'harness/C15.cpp kind 4'}
+        if ii is None or ii[0] == -997:
+            viol('crash:standard-from-turbo', 'the harness produced no answer (crash)', rep); continue
+        if ii[0] == -1:
+            viol('standard-mesh:resetFromTurbo-fresh-object-fails', 'MeshEStandard::resetFromTurbo on a freshly constructed MeshEStandard throws / fails '
+                 '(the space dimension is not set before the consistency check)', rep); continue
+        nap, nm, Pt, Ps = ii
+        rt = [row_dict(r, undy) for r in Pt[2]]; rs = [row_dict(r, undy) for r in Ps[2]]
+        ctx.count(sx_str(c), True)
+        if Pt[0] != Ps[0] or Pt[1] != Ps[1]:
+            viol('standard-from-turbo:dimensions', 'projection on the turbo meshing is %dx%d, on the standard meshing built from it %dx%d' % (Pt[0], Pt[1], Ps[0], Ps[1]), rep); continue
+        for k in range(Pt[0]):
+            w = rt[k]
+            interior = w and len(w) == len(c[1]) + 1 and min(float(v) for v in w.values()) > 1e-4
+            if interior and not rows_close(w, rs[k], 1e-9):
+                viol('standard-from-turbo:row', 'sample %d: turbo row %s, standard row %s' % (k, fmt_row(w), fmt_row(rs[k])), rep); break
+
 # ----------------------------------------------------------------------------- precision operators
 def gen_mesh_for_ops(rng, hv, tab, maxnodes):
     if rng.random() < .75:
@@ -650,7 +720,7 @@ def check_operators(ctx, exe, runner, hv, viol):
         if m and m[0] == -999: print('ERROR: model rejected operator case'); sys.exit(3)
         mfree, masm, mcum, mtrain, mhorner, mQ = [[unq(x) for x in m[k]] for k in range(5)] + [[[unq(x) for x in r] for r in m[5]]]
         maddf, maddc = [unq(x) for x in m[6]], [unq(x) for x in m[7]]
-        if vdiff(h['addf'], maddf) > 1e-10 * dn or vdiff(h['addc'], maddc) > 1e-10 * dn:
+        if (vdiff(h['addf'], maddf) > 1e-10 * dn or vdiff(h['addc'], maddc) > 1e-10 * dn) and vdiff(h['addf'], want) <= 1e-10 * dn and vdiff(h['addc'], want) <= 1e-10 * dn:
             viol('model-drift:precision-op:addToDest', 'impl and model differ on addToDest (matrix-free %.3g, assembled %.3g): correspondence coq/C15/ModelOp.v '
                  'no longer checks' % (vdiff(h['addf'], maddf), vdiff(h['addc'], maddc)), rep, found=False)
         if mfree != masm or mtrain != mfree:
